@@ -446,7 +446,7 @@ func runExec(c *Ctx) {
 			if g.Parent() != nil || g.Signature.Results().Len() != 1 || core.TypeStr(g.Signature.Results().At(0).Type()) != "[]reflect.Value" {
 				continue
 			}
-			if len(core.Calls(g, "(reflect.Value).Addr")) > 0 {
+			if len(p.RegionCalls(g, "(reflect.Value).Addr")) > 0 {
 				packers = append(packers, g)
 			}
 		}
@@ -709,7 +709,43 @@ func runOnce(c *Ctx, exec *ssa.Function, fnField, onceField, memoField string) {
 	}
 	isMemoDeref := func(v ssa.Value) bool {
 		ld, ok := v.(*ssa.UnOp)
-		return ok && ld.Op == token.MUL && (isMemoLoad(ld.X) || isMemoLoad(v))
+		if !ok || ld.Op != token.MUL {
+			return false
+		}
+		if isMemoLoad(ld.X) || isMemoLoad(v) {
+			return true
+		}
+		// `cached := f.memoized(); … return *cached`: the pointer comes from an accessor whose non-nil results are the memo
+		if _, isCall := ld.X.(*ssa.Call); isCall {
+			n := 0
+			for _, sv := range p.ISources(ld.X) {
+				if core.IsNilConst(sv) {
+					continue
+				}
+				if !isMemoLoad(sv) {
+					return false
+				}
+				n++
+			}
+			return n > 0
+		}
+		return false
+	}
+	memoAccessor := func(v ssa.Value) bool {
+		if _, isCall := v.(*ssa.Call); !isCall {
+			return false
+		}
+		n := 0
+		for _, sv := range p.ISources(v) {
+			if core.IsNilConst(sv) {
+				continue
+			}
+			if !isMemoLoad(sv) {
+				return false
+			}
+			n++
+		}
+		return n > 0
 	}
 	// O1: a return of the memo, guarded exactly by (once, memo present), decided before the call
 	var cachedRet *ssa.Return
@@ -737,6 +773,10 @@ func runOnce(c *Ctx, exec *ssa.Function, fnField, onceField, memoField string) {
 			case l.Kind == "bool" && l.Pol && isOnceLoad(l.Of):
 				onceG = true
 			case l.Kind == "cmp" && l.Op == token.EQL && !l.Pol && ((isMemoLoad(l.X) && core.IsNilConst(l.Y)) || (isMemoLoad(l.Y) && core.IsNilConst(l.X))):
+				memoG = true
+			case l.Kind == "cmp" && l.Op == token.EQL && !l.Pol && core.IsNilConst(l.Y) && memoAccessor(l.X):
+				// `cached != nil` on the result of an accessor whose non-nil results are the memo pointer: what it implies
+				// (flag set, memo present) has been added by the expansion
 				memoG = true
 			default:
 				extra = l.String()
